@@ -1,5 +1,76 @@
-(* C18 — pinned statements; proofs are in Server/*Proofs.v. *)
-From ZV Require Import Server.Server Server.ServerExec.
+(* C18 — round-robin service: a flooding client cannot starve the others.
+   Only pinned statements; proofs are in Server/RoundRobin.v and Server/ServerRR.v. *)
+From ZV Require Import Server.Server Server.RoundRobin Server.ServerRR Server.ServerExamples.
 
-Example C18_nonvacuous : True.
-Proof. exact I. Qed.
+(* [segment P L b s ws s']: a run of the loop from s to s' — iterations (Server.iteration) interleaved
+   with arbitrary environment events — in every state of which the call list holds exactly the
+   connections L (in order: nothing accepted, removed, parked or resumed) and the connection at
+   index b has a complete call available by the code's own delivery rule ([ready]: a poll of its
+   receive_call is Ready).  ws = the indices get_next_call yielded, in order.
+   No connection a <> b is chosen twice without b being chosen in between; for every service,
+   every decoder, any number of connections and iterations. *)
+Theorem C18_no_double_service :
+  forall (P : params) (L : list nat) (b : nat) (s : sv P) (ws : list nat) (s' : sv P)
+         (a : nat) (l1 l2 l3 : list nat),
+  segment P L b s ws s' -> b < length L -> a <> b ->
+  ws = l1 ++ a :: l2 ++ a :: l3 -> In b l2.
+Proof. exact no_double_service. Qed.
+Print Assumptions C18_no_double_service.
+
+(* The core, independent of the server: successive polls of SelectAll over n futures, each
+   starting after the previous winner, with arbitrary readiness rs_k at the k-th poll. *)
+Theorem C18_select_all_round_robin :
+  forall (rs : list (nat -> bool)) (last : option nat) (n a b : nat) (l1 l2 l3 : list nat),
+  b < n -> a <> b -> (forall r, In r rs -> r b = true) ->
+  winners last n rs = l1 ++ a :: l2 ++ a :: l3 -> In b l2.
+Proof. exact rr_no_double_service. Qed.
+Print Assumptions C18_select_all_round_robin.
+
+(* [starving P beta n s W k s']: a run from s to s' during which connection beta is in the call list
+   with a complete call available in every state and is never chosen, the call list never holds
+   more than n connections, W calls of other connections are served, and k iterations change the
+   call list (closures, accepts, stream transitions).  Then W < n * (k + 1): beta's call is served
+   after fewer than n * (k + 1) other calls. *)
+Theorem C18_bounded_across_transitions :
+  forall (P : params) (beta n : nat) (s : sv P) (W k : nat) (s' : sv P),
+  starving P beta n s W k s' -> W < n * (k + 1).
+Proof. exact bounded_across_transitions. Qed.
+Print Assumptions C18_bounded_across_transitions.
+
+(* Non-vacuity: a flooder (connection 0, four calls buffered) and connection 1 (two calls): from the
+   state in which both are accepted, four iterations form a segment with b = 1 and choose 0,1,0,1. *)
+Example C18_nonvacuous :
+  let s := iterate 2 (after [NewConn 0; NewConn 1; Arrive 0 [65;0;66;0;67;0;68;0]%N;
+                              Arrive 1 [97;0;98;0;99;0]%N]) in
+  exists s', segment ex_params [0; 1] 1 s [0; 1; 0; 1] s'.
+Proof.
+  cbv zeta. eexists.
+  refine (seg_iter ex_params _ _ _ _ _ _ _ [1; 0; 1] _ _ _).
+  1: split; vm_compute; reflexivity.
+  1: vm_compute; reflexivity.
+  refine (seg_iter ex_params _ _ _ _ _ _ _ [0; 1] _ _ _).
+  1: split; vm_compute; reflexivity.
+  1: vm_compute; reflexivity.
+  refine (seg_iter ex_params _ _ _ _ _ _ _ [1] _ _ _).
+  1: split; vm_compute; reflexivity.
+  1: vm_compute; reflexivity.
+  refine (seg_iter ex_params _ _ _ _ _ _ _ [] _ _ _).
+  1: split; vm_compute; reflexivity.
+  1: vm_compute; reflexivity.
+  apply seg_end. split; vm_compute; reflexivity.
+Qed.
+
+(* a run in which connection 1 starves for one iteration: W = 1 < 2 * (0 + 1) *)
+Example C18_bounded_nonvacuous :
+  let s := iterate 2 (after [NewConn 0; NewConn 1; Arrive 0 [65;0;66;0;67;0;68;0]%N;
+                              Arrive 1 [97;0;98;0;99;0]%N]) in
+  exists s', starving ex_params 1 2 s 1 0 s'.
+Proof.
+  cbv zeta. eexists.
+  refine (sv_iter ex_params 1 2 _ 1 _ _ _ _ 0 0 _ _ _ _ _).
+  - repeat split; vm_compute; auto.
+  - vm_compute; reflexivity.
+  - vm_compute. discriminate.
+  - vm_compute. reflexivity.
+  - apply (sv_end ex_params 1 2 _ 1). repeat split; vm_compute; auto.
+Qed.
